@@ -109,6 +109,10 @@ type Model struct {
 	// GlobMatch judges KEYS patterns (independent matcher).
 	// Opt: tolerated reference ambiguities.
 	Opt Options
+	// NowHi, when set, is the latest instant at which the command being applied
+	// can have executed (its reply instant); commands that read the clock accept
+	// any instant in [now, NowHi].
+	NowHi time.Time
 }
 
 type Options struct {
@@ -126,7 +130,7 @@ func New(ndb int) *Model {
 }
 
 func (m *Model) Clone() *Model {
-	c := &Model{Selected: map[int]int{}, Opt: m.Opt}
+	c := &Model{Selected: map[int]int{}, Opt: m.Opt, NowHi: m.NowHi}
 	for _, d := range m.DBs {
 		c.DBs = append(c.DBs, d.clone())
 	}
